@@ -16,6 +16,7 @@ theorem add_empty (fuel : Nat) (r : Rect) : RectSet.add (fuel + 1) [] r = some [
 theorem subtract_single {fuel : Nat} {sr hole : Rect} {s' : List Rect}
     (h : RectSet.subtract fuel [sr] hole = some s') (hsr : sr.Nonempty) (hh : hole.Nonempty) :
     (∀ r ∈ s', r.Nonempty) ∧ ∀ l c, Covered s' l c ↔ (sr.Mem l c ∧ ¬ hole.Mem l c) := by
+  rw [RectSet.subtract_of_nonempty _ _ _ hh] at h
   have hs : ∀ r ∈ [sr], r.Nonempty := by intro r hr; simp at hr; rw [hr]; exact hsr
   have hb := RectSet.subtractFrom_bounds fuel [sr] hole 0 s' h hh hs
   have hcov1 : ∀ l c, Covered [sr] l c ↔ sr.Mem l c := by
@@ -26,7 +27,6 @@ theorem subtract_single {fuel : Nat} {sr hole : Rect} {s' : List Rect}
   · intro hc
     refine ⟨(hcov1 l c).1 (hb.2.1 l c hc), ?_⟩
     -- no cell of the hole stays covered: look at how the single member was split
-    unfold RectSet.subtract at h
     cases fuel with
     | zero => simp [RectSet.subtractFrom] at h
     | succ n =>
